@@ -100,7 +100,10 @@ def findContent (f : FileData) : M Nat := do
     let nameLen ← readU16
     let extraLen ← readU16
     let ds := f.headerStart.toNat + 30 + nameLen.toNat + extraLen.toNat
-    if ds ≥ 18446744073709551616 then M.panic "read.rs:201 data_start overflow" else do
+    -- read.rs:229 `data.header_start + magic_and_header + file_name_length + extra_field_length` (checked `u64`
+    -- additions; the panic site carries the translator's name for an overflowing checked operation, so that
+    -- `Tie/ReaderGlue.tie_find_content` is an equation also on this path)
+    if ds ≥ 18446744073709551616 then M.panic "rs2lean: checked operation" else do
       let _ ← seek (.start ds)
       pure ds
 
@@ -124,6 +127,104 @@ def crcCheck (ae2 : Bool) (declared : UInt32) (content : Bytes) : Out Bytes :=
 def Method.decodable : Method → Bool
   | .stored | .deflated | .bzip2 | .zstd => true
   | _ => false
+
+/-! ### The open-time decisions of `make_crypto_reader` / `make_reader` as functions
+
+`byIndexRead` below inlines them; `Tie/ReaderGlue.lean` proves `byIndexRead = byIndexReadC` (the same function written
+through `cryptoChoice`) and ties the TRANSLATED `make_crypto_reader` / `make_reader` to `cryptoChoice` /
+`decoderChoice`. -/
+
+/-- `ZipCryptoValidator`: which byte of the decrypted 12-byte header is compared. -/
+inductive Validator
+  | pkzipCrc32 (crc : UInt32)
+  | infoZipMsdosTime (t : UInt16)
+  deriving DecidableEq, Repr
+
+/-- the check byte: high byte of the CRC, or of the DOS time for entries written with a data descriptor -/
+def Validator.checkByte : Validator → UInt8
+  | .pkzipCrc32 c => (c >>> 24).toUInt8
+  | .infoZipMsdosTime t => (t >>> 8).toUInt8
+
+/-- What `make_crypto_reader` decides before it touches the device. -/
+inductive CryptoChoice
+  /-- `Err(UnsupportedArchive)`: a method without a decoder, or the AES pseudo-method 99 left in place -/
+  | unsupported
+  /-- `Ok(Err(InvalidPassword))` at once: an AES entry opened without a password -/
+  | invalidPassword
+  | plaintext
+  | zipCrypto (pw : Bytes) (v : Validator)
+  | aes (pw : Bytes) (mode : AesMode) (vv : AesVendorVersion)
+  deriving DecidableEq, Repr
+
+/-- `make_crypto_reader`, the decision. -/
+def cryptoChoice (method : Method) (crc32 : UInt32) (time : DateTime) (usingDataDescriptor : Bool)
+    (password : Option Bytes) (aesInfo : Option (AesMode × AesVendorVersion)) : CryptoChoice :=
+  match method with
+  | .unsupported _ => .unsupported
+  | .aes => .unsupported
+  | _ =>
+    match password, aesInfo with
+    | some pw, some (mode, vv) => .aes pw mode vv
+    | some pw, none =>
+      .zipCrypto pw (if usingDataDescriptor then .infoZipMsdosTime time.timepart else .pkzipCrc32 crc32)
+    | none, some _ => .invalidPassword
+    | none, none => .plaintext
+
+/-- The decoder `make_reader` puts under the CRC layer. -/
+inductive Decoder
+  | stored | deflate | bzip2 | zstd
+  deriving DecidableEq, Repr
+
+/-- `make_reader`, the decision: `none` = `panic!("Compression method not supported")`. -/
+def decoderChoice : Method → Option Decoder
+  | .stored => some .stored
+  | .deflated => some .deflate
+  | .bzip2 => some .bzip2
+  | .zstd => some .zstd
+  | _ => none
+
+open M in
+/-- `byIndexRead` written through `cryptoChoice` (equal to it: `Tie/ReaderGlue.byIndexRead_eq_choice`). -/
+def byIndexReadC (ext : Ext) (a : Archive) (i : Nat) (password : Option Bytes) :
+    M (PwResult (Nat × Out Bytes)) :=
+  match a.files[i]? with
+  | none => throw .fileNotFound
+  | some data =>
+    if password.isNone && data.encrypted then throw .passwordRequired else do
+    let password := if data.encrypted then password else none
+    let ds ← findContent data
+    match cryptoChoice data.method data.crc32 data.time data.usingDataDescriptor password data.aesMode with
+    | .unsupported => throw .unsupportedArchive
+    | .invalidPassword => pure .invalidPassword
+    | .aes pw mode vv => do
+      let raw ← takeAll data.compressedSize.toNat
+      match ext.aes pw mode data.compressedSize raw with
+      | .err e => throw e
+      | .panic s => M.panic s
+      | .ok none => pure .invalidPassword
+      | .ok (some stream) =>
+        let res : Out Bytes := do
+          let pt ← stream
+          let dec ← ext.decode data.method pt
+          crcCheck (vv == .ae2) data.crc32 dec
+        pure (.ok (ds, res))
+    | .zipCrypto pw v => do
+      let raw ← takeAll data.compressedSize.toNat
+      match ext.zipCrypto pw v.checkByte raw with
+      | .err e => throw e
+      | .panic s => M.panic s
+      | .ok none => pure .invalidPassword
+      | .ok (some pt) =>
+        let res : Out Bytes := do
+          let dec ← ext.decode data.method pt
+          crcCheck false data.crc32 dec
+        pure (.ok (ds, res))
+    | .plaintext => do
+      let raw ← takeAll data.compressedSize.toNat
+      let res : Out Bytes := do
+        let dec ← ext.decode data.method raw
+        crcCheck false data.crc32 dec
+      pure (.ok (ds, res))
 
 open M in
 /-- `by_index_with_optional_password` followed by reading the entry to the end.
